@@ -15,6 +15,7 @@ from happysimulator.components.queue import QueueNotifyEvent
 from happysimulator.components.queue_policy import FIFOQueue, QueuePolicy
 from happysimulator.components.queued_resource import QueuedResource
 from happysimulator.core.event import Event
+from happysimulator.core.temporal import Instant
 
 if TYPE_CHECKING:
     from collections.abc import Generator
@@ -85,6 +86,13 @@ class ShiftSchedule:
         return sorted(times)
 
 
+def _boundary_instant(seconds: float) -> Instant:
+    """A shift boundary in the clock's time base (an open-ended shift ends at infinity)."""
+    if seconds == float("inf"):
+        return Instant.Infinity
+    return Instant.from_seconds(seconds)
+
+
 class ShiftedServer(QueuedResource):
     """QueuedResource whose concurrency varies according to a ShiftSchedule.
 
@@ -148,9 +156,21 @@ class ShiftedServer(QueuedResource):
 
         return super().handle_event(event)
 
+    def _capacity_now(self) -> int:
+        """Capacity at the current instant, compared in the clock's nanosecond base.
+
+        A boundary ``b`` is delivered at ``Instant.from_seconds(b)``, which can lie
+        just below ``b`` when converted back to float seconds.
+        """
+        now = self.now
+        for shift in self.schedule.shifts:
+            if _boundary_instant(shift.start_s) <= now < _boundary_instant(shift.end_s):
+                return shift.capacity
+        return self.schedule.default_capacity
+
     def _handle_shift_change(self) -> list[Event]:
         time_s = self.now.to_seconds()
-        new_capacity = self.schedule.capacity_at(time_s)
+        new_capacity = self._capacity_now()
         old_capacity = self._current_capacity
         self._current_capacity = new_capacity
 
@@ -176,19 +196,20 @@ class ShiftedServer(QueuedResource):
 
     def _schedule_next_shift(self) -> Event | None:
         """Schedule only the next transition event."""
-        from happysimulator.core.temporal import Instant
-
-        current_s = self.now.to_seconds()
-        next_t = self.schedule.next_transition_after(current_s)
-        if next_t is None:
-            return None
-
-        return Event(
-            time=Instant.from_seconds(next_t),
-            event_type=_SHIFT_CHANGE,
-            target=self,
-            daemon=True,
-        )
+        # Compare in the clock's nanosecond base: a boundary whose conversion
+        # truncates (0.1 * 3, 1 / 3, ...) is still "after" now in float seconds
+        # when its own event fires, and would be scheduled again at the same instant.
+        now = self.now
+        for next_t in self.schedule.transition_times():
+            at = _boundary_instant(next_t)
+            if at > now and at != Instant.Infinity:
+                return Event(
+                    time=at,
+                    event_type=_SHIFT_CHANGE,
+                    target=self,
+                    daemon=True,
+                )
+        return None
 
     def handle_queued_event(
         self, event: Event
